@@ -18,9 +18,13 @@ open PonyVerif.Model.JsonOps PonyVerif.Gen
 /-- the literal list of `SQLiteBuilder.JSON_NONZERO` in the current source, as texts -/
 def srcLits : List Text := JsonLits.sqliteNonzeroLits.map String.toList
 
-/-- the regex the scanner `matchSeg` was written for is the regex in `sqlite.py`; `is_ident` is `^[A-Za-z_]\w*\Z` -/
+/-- does the source's `json_path_re` accept `[#-N]` (the spelling JSON1 needs for an index counted from the end) -/
+def srcHash : Bool := JsonLits.jsonPathRe == "\\[#?(-?\\d+)\\]|\\.(?:(\\w+)|\"([^\"]*)\")"
+
+/-- the regex in `sqlite.py` is one of the two the scanner `matchSeg` covers (without / with `#?`; `srcHash` says which);
+    `is_ident` is `^[A-Za-z_]\w*\Z` -/
 theorem C29_src_regex :
-    JsonLits.jsonPathRe = "\\[(-?\\d+)\\]|\\.(?:(\\w+)|\"([^\"]*)\")" ∧ JsonLits.identRe = "^[A-Za-z_]\\w*\\Z" := by
+    (JsonLits.jsonPathRe = "\\[(-?\\d+)\\]|\\.(?:(\\w+)|\"([^\"]*)\")" ∨ srcHash = true) ∧ JsonLits.identRe = "^[A-Za-z_]\\w*\\Z" := by
   decide
 
 /-- `JSON_NONZERO` is `expr NOT IN (…)` on the bare expression, its literal list contains the six literals of the model and at most the two
@@ -35,14 +39,14 @@ def asciiW (c : Char) : Bool := c.isAlphanum || c == '_'
 /-! ### path text: build, then parse back -/
 
 /-- **Round trip.** For every key list without a double quote in a name, `_parse_path(eval_json_path(keys)) = keys`. -/
-theorem C29_path_roundtrip (W : Char → Bool) (hW : WordClass W) (keys : List Key) (h : ∀ k ∈ keys, k.pathSafe = true) :
-    parsePath W (evalJsonPath W keys) = some keys := by
+theorem C29_path_roundtrip (W : Char → Bool) (hash : Bool) (hW : WordClass W) (keys : List Key) (h : ∀ k ∈ keys, k.pathSafe = true) :
+    parsePath W hash (evalJsonPath W keys) = some keys := by
   simp only [evalJsonPath, parsePath]
-  exact parseSegs_segs W hW keys h _ (Nat.le_refl _)
+  exact parseSegs_segs W hash hW keys h _ (Nat.le_refl _)
 
 /-- the full statement (no guard) -/
 def C29_path_roundtrip_full : Prop :=
-  ∀ (W : Char → Bool), WordClass W → ∀ keys : List Key, parsePath W (evalJsonPath W keys) = some keys
+  ∀ (W : Char → Bool) (hash : Bool), WordClass W → ∀ keys : List Key, parsePath W hash (evalJsonPath W keys) = some keys
 
 theorem asciiW_wordClass : WordClass asciiW where
   ident := by
@@ -57,12 +61,13 @@ theorem asciiW_wordClass : WordClass asciiW where
   quote := by decide
 
 /-- what the code does with the key `q"k`: the emitted text `$."q\"k"` is not parseable at all (`keys = None`, the query yields NULL) -/
-theorem C29_path_quote_witness : parsePath asciiW (evalJsonPath asciiW [.name ['q', '"', 'k']]) = none := by
+theorem C29_path_quote_witness (hash : Bool) : parsePath asciiW hash (evalJsonPath asciiW [.name ['q', '"', 'k']]) = none := by
+  cases hash <;>
   decide
 
 theorem C29_path_roundtrip_full_false : ¬ C29_path_roundtrip_full := by
   intro h
-  have := h asciiW asciiW_wordClass [.name ['q', '"', 'k']]
+  have := h asciiW false asciiW_wordClass [.name ['q', '"', 'k']]
   rw [C29_path_quote_witness] at this
   exact absurd this (by simp)
 
@@ -195,29 +200,36 @@ example : (Json.float '1' ['.', '5']).topOk = true ∧ (Json.float '1' ['.', '5'
 
 /-! ### the JSON1 path lookup (backend model) against `_traverse` -/
 
-/-- a key JSON1 can look up: a non-negative index, or a name without `"`, `\` and control characters -/
-def Key.json1Safe : Key → Bool
-  | .idx i => decide (0 ≤ i)
+/-- a key JSON1 can look up: an index (a negative one only when the builder spells it `[#-N]`), or a name without `"`, `\` and
+    control characters -/
+def Key.json1Safe (negHash : Bool) : Key → Bool
+  | .idx i => negHash || decide (0 ≤ i)
   | .name s => s.all json1SafeChar
 
-/-- **JSON1 = fallback** for every document and every path of JSON1-safe keys (where `_traverse` does not raise) -/
-theorem C29_json1_agrees (cte : Bool) (doc : Json) (keys : List Key) (hk : ∀ k ∈ keys, Key.json1Safe k = true) (v : Json)
-    (h : traverseKeys cte doc keys = .ok v) : json1Extract doc keys = .ok v := by
+/-- **JSON1 = fallback** for every document and every path of JSON1-safe keys (where `_traverse` does not raise); with the `[#-N]`
+    spelling (`negHash`) this includes every integer index -/
+theorem C29_json1_agrees (cte negHash : Bool) (doc : Json) (keys : List Key) (hk : ∀ k ∈ keys, Key.json1Safe negHash k = true) (v : Json)
+    (h : traverseKeys cte doc keys = .ok v) : json1Extract negHash doc keys = .ok v := by
   induction keys generalizing doc with
   | nil => simpa [traverseKeys, json1Extract] using h
   | cons k ks ih =>
     have hk0 := hk k (by simp)
-    have hks : ∀ k ∈ ks, Key.json1Safe k = true := fun k hk' => hk k (by simp [hk'])
+    have hks : ∀ k ∈ ks, Key.json1Safe negHash k = true := fun k hk' => hk k (by simp [hk'])
     cases k with
     | idx i =>
-      have hi : ¬ i < 0 := by simp [Key.json1Safe] at hk0; omega
+      have hi : (decide (i < 0) && !negHash) = false := by
+        simp only [Key.json1Safe, Bool.or_eq_true, decide_eq_true_eq] at hk0
+        rcases hk0 with hk0 | hk0
+        · simp [hk0]
+        · have : ¬ i < 0 := by omega
+          simp [this]
       cases doc with
       | arr xs =>
-        simp only [traverseKeys, Json.isContainer, getItem, listGet_nonneg xs i (by omega)] at h
+        simp only [traverseKeys, Json.isContainer, getItem] at h
         simp only [json1Extract, hi]
-        cases hx : xs[i.toNat]? with
+        cases hx : listGet xs i with
         | none => rw [hx] at h; simp at h; subst h; simp
-        | some w => rw [hx] at h; simp at h; simp only [if_false]; exact ih _ hks h
+        | some w => rw [hx] at h; simp at h; simp only [Bool.false_eq_true, if_false]; exact ih _ hks h
       | obj kvs => simp [traverseKeys, Json.isContainer, getItem] at h; simp [json1Extract, hi, h]
       | null => simp [traverseKeys, Json.isContainer] at h; simp [json1Extract, hi, h]
       | bool b => simp [traverseKeys, Json.isContainer] at h; simp [json1Extract, hi, h]
@@ -242,12 +254,17 @@ theorem C29_json1_agrees (cte : Bool) (doc : Json) (keys : List Key) (hk : ∀ k
       | float c r => simp [traverseKeys, Json.isContainer] at h; simp [json1Extract, h]
       | str s => simp [traverseKeys, Json.isContainer] at h; simp [json1Extract, h]
 
-/-- the unguarded statement fails on the last element of a list: JSON1 has no `[-1]` -/
+/-- with the plain `[-N]` spelling the unguarded statement fails on the last element of a list: JSON1 has no `[-1]` -/
 theorem C29_json1_negative_index_false :
-    ¬ (∀ (doc : Json) (keys : List Key) (v : Json), traverseKeys false doc keys = .ok v → json1Extract doc keys = .ok v) := by
+    ¬ (∀ (doc : Json) (keys : List Key) (v : Json), traverseKeys false doc keys = .ok v → json1Extract false doc keys = .ok v) := by
   intro h
   have := h (.arr [.int 1, .int 2, .int 3]) [.idx (-1)] (.int 3) (by rfl)
   simp [json1Extract] at this
+
+/-- with `[#-N]` every index is JSON1-safe: `x.data['neg'][-1]` is the last item on JSON1 as on the fallback -/
+theorem C29_json1_hash_index (i : Int) : Key.json1Safe true (.idx i) = true ∧
+    json1Extract true (.arr [.int 1, .int 2, .int 3]) [.idx (-1)] = .ok (.int 3) := by
+  exact ⟨by simp [Key.json1Safe], by rfl⟩
 
 /-! ### membership and length -/
 
